@@ -302,6 +302,22 @@ class _N(ast.NodeTransformer):
             i += 1
         res = self._flag_to_else(res2)
         res = self._loop_to_anyall(res)
+        # N4 once more: a rewrite above may have produced `t = E` directly in front of `return t`
+        again: List[ast.stmt] = []
+        i = 0
+        while i < len(res):
+            st = res[i]
+            nxt = res[i + 1] if i + 1 < len(res) else None
+            if isinstance(st, ast.Assign) and len(st.targets) == 1 and isinstance(st.targets[0], ast.Name) \
+                    and isinstance(nxt, ast.Return) and isinstance(nxt.value, ast.Name) and nxt.value.id == st.targets[0].id \
+                    and sum(1 for s_ in res for n_ in ast.walk(s_) if isinstance(n_, ast.Name) and n_.id == st.targets[0].id
+                            and isinstance(n_.ctx, ast.Load)) == 1 and self._uses.get(st.targets[0].id, 0) <= 2:
+                again.append(ast.copy_location(ast.Return(value=st.value), st))
+                i += 2
+                continue
+            again.append(st)
+            i += 1
+        res = again
         if not res:
             res = [ast.copy_location(ast.Pass(), stmts[0])] if stmts else []
         return res
